@@ -168,9 +168,24 @@ pub fn execute(sc: &Scenario, other_key: &rsa::RsaPublicKey) -> Outcome {
     match rx.recv_timeout(Duration::from_secs(20)) {
         Ok(o) => o,
         Err(_) => {
-            HANGS.fetch_add(1, Ordering::SeqCst);
-            eprintln!("HANG: the connection handler did not settle within 20 s of real time (busy loop or dead-lock)");
-            hung(true)
+            // a handler that spins does so on every run of the same scenario; a runner thread that was merely starved (one such
+            // event was seen in 200 000 scenarios on a fully loaded machine) is not: the scenario is run once more, with 40 s
+            eprintln!("no result within 20 s of real time: running the scenario once more");
+            let (tx, rx) = std::sync::mpsc::channel();
+            let (sc2, key2) = (sc.clone(), other_key.clone());
+            std::thread::spawn(move || {
+                let rt = tokio::runtime::Builder::new_current_thread().enable_time().start_paused(true).build().unwrap();
+                let o = rt.block_on(execute_async(&sc2, &key2));
+                let _ = tx.send(o);
+            });
+            match rx.recv_timeout(Duration::from_secs(40)) {
+                Ok(o) => o,
+                Err(_) => {
+                    HANGS.fetch_add(1, Ordering::SeqCst);
+                    eprintln!("HANG: the connection handler did not settle within 20 s and, run again, within 40 s of real time (busy loop or dead-lock)");
+                    hung(true)
+                }
+            }
         }
     }
 }
@@ -552,7 +567,8 @@ pub mod build {
     pub fn login_start(name: &[u8], uuid: u128) -> Vec<u8> { payload(0, &[s(name), uuid.to_be_bytes().to_vec()]) }
     pub fn cookie_response(key: &[u8], pl: Option<&[u8]>) -> Vec<u8> { payload(4, &[s(key), match pl { Some(p) => { let mut v = vec![1u8]; v.extend(s(p)); v } None => vec![0u8] }]) }
     pub fn login_ack() -> Vec<u8> { payload(3, &[]) }
-    pub fn client_info(locale: &[u8]) -> Vec<u8> { payload(0, &[s(locale), vec![8], ref_varint(0), vec![1], vec![0x7f], ref_varint(1), vec![0], vec![1], ref_varint(0)]) }
+    /// view distance: one signed byte chosen from the locale's length (10, 0, 127, -1, -128 all occur), so that every caller varies it
+    pub fn client_info(locale: &[u8]) -> Vec<u8> { let vd = [8u8, 0, 0x7f, 0xff, 0x80, 10][locale.len() % 6]; payload(0, &[s(locale), vec![vd], ref_varint(0), vec![1], vec![0x7f], ref_varint(1), vec![0], vec![1], ref_varint(0)]) }
     pub fn plugin_message() -> Vec<u8> { payload(2, &[]) }
     pub fn config_cookie_response() -> Vec<u8> { payload(1, &[]) }
     pub fn resource_pack_response(uuid: u128, result: i32) -> Vec<u8> { payload(6, &[uuid.to_be_bytes().to_vec(), ref_varint(result)]) }
